@@ -20,6 +20,7 @@
 -/
 import BVM.Proofs.RtRec
 import BVM.Proofs.CfgOKb
+import BVM.Proofs.RtPosB
 namespace BVM
 
 theorem calls_recorded_or_discarded (cfg : Cfg) (d : DST) (ops : List Op) (bytes : Nat) (p : Plat)
@@ -40,6 +41,17 @@ theorem calls_recorded_or_discarded_always (cfg : Cfg) (d : DST) (L A : Nat) (hc
   calls_recorded_or_discarded cfg d ops L p
     (runOps_pinv cfg d L A p.openArgs hcfg hsmall hhdr ops hops (rtInit L p)
       (rtInit_pinv d L A hcfg.Apos hsmall p hsb)).nh
+
+/-- the same for platforms that install buffers of different sizes, for histories that start by opening a packet and
+    never disable tracing (hypotheses of `no_store_outside_the_buffer_any_sizes`, Props/C02.lean) -/
+theorem calls_recorded_or_discarded_always_any_sizes (cfg : Cfg) (d : DST) (A Lmax : Nat) (hcfg : CfgOK A cfg d)
+    (hsmall : 8 * Lmax + A ≤ 2 ^ 32) (L : Nat) (p : Plat) (hL : GoodBuf cfg d A Lmax p.openArgs L)
+    (htg : p.toggles = []) (hsb : ∀ x ∈ p.setBufs, GoodBuf cfg d A Lmax p.openArgs x.2)
+    (ops : List Op) (hops : OpsSmall d Lmax A ops) (hen : NeverDisabled ops) :
+    nCall (runOps cfg d (.open_ :: ops) (rtInit L p)).log =
+      nRec (runOps cfg d (.open_ :: ops) (rtInit L p)).log + nDisc (runOps cfg d (.open_ :: ops) (rtInit L p)).log :=
+  calls_recorded_or_discarded cfg d (.open_ :: ops) L p
+    (runOps_from_init cfg d A Lmax hcfg hsmall L p hL htg hsb ops hops hen).nh
 
 /-- **records are laid out one after the other, inside the packet** (platforms with one buffer size; hypotheses as in
     `no_store_outside_the_buffer`, Props/C02.lean): along every history, every record that a tracing call serialises
@@ -99,6 +111,7 @@ example : exRun3.halted = false ∧ nCall exRun3.log = 4 ∧ nRec exRun3.log = 3
 
 #print axioms calls_recorded_or_discarded
 #print axioms calls_recorded_or_discarded_always
+#print axioms calls_recorded_or_discarded_always_any_sizes
 #print axioms records_laid_out_in_order
 #print axioms discarded_counter_exact
 #print axioms discard_only_if
